@@ -238,7 +238,8 @@ def check_gate(ctx):
             v = e.value
             vx = t.expand(v)
             from_handler = isinstance(vx, ast.Call) and prog.callee_of(
-                lr, vx) is r.deprecated and len(vx.args) == 1 and U(
+                r.load_body, vx) is r.deprecated and len(
+                    vx.args) == 1 and U(
                     vx.args[0]) == b
             if dep_true:
                 n_dep += 1
@@ -285,7 +286,20 @@ def check(ctx):
                 'to seven atoms and every feasible assignment is compared '
                 'with the documented override table; conditions outside the '
                 'table must not influence the outcome.')
-    ctx.assume('file-rule recording is checked by C10.PAIR')
+    ctx.assume('old_in_file is decided on the file-rule record; its '
+               'maintenance is checked by the C10.PAIR / C10.RESET rules, '
+               're-run here as C11.RECORD')
     check_table(ctx)
     check_gate(ctx)
     check_opt(ctx)
+    # C11.RECORD: the record of operator overrides the handler consults
+    # (file_rules) is maintained together with the rule store (= C10.PAIR,
+    # C10.RESET, reported here under C11's name)
+    from . import c10
+    nf, no = len(ctx.findings), len(ctx.obligations)
+    c10.check_pair(ctx)
+    c10.check_reapply_and_reset(ctx)
+    for f in ctx.findings[nf:]:
+        f.rule = 'C11.RECORD(' + f.rule + ')'
+    for o in ctx.obligations[no:]:
+        o['rule'] = 'C11.RECORD(' + o['rule'] + ')'
